@@ -47,7 +47,19 @@ class Shell:
         bindir = os.path.join(self.root, "bin")
         os.makedirs(bindir)
         shutil.copy(build.c_tool("argdump"), os.path.join(bindir, "argdump"))
-        self.env = dict(PATH=bindir + ":/usr/bin:/bin", HOME=self.home, IFS=" \t\n", a="EXPANDED_a", x="EXPANDED_x", LC_ALL="C")
+        self.cmdbin = os.path.join(self.root, "cmdbin")
+        os.makedirs(self.cmdbin)
+        self.argdump = os.path.join(bindir, "argdump")
+        self.env = dict(PATH=bindir + ":" + self.cmdbin + ":/usr/bin:/bin", HOME=self.home, IFS=" \t\n", a="EXPANDED_a", x="EXPANDED_x", LC_ALL="C")
+        self._special = {}
+
+    def is_shell_word(self, name):
+        """True if sh itself gives the word a meaning in command position even when quoted or looked up (builtin), or when
+        written without quotes (reserved word): not a file name the property can speak about there"""
+        if name not in self._special:
+            p = subprocess.run(["/bin/sh", "-c", 'type "$1"', "sh", name], env=dict(PATH="/nonexistent"), capture_output=True)
+            self._special[name] = b"not found" not in p.stdout + p.stderr
+        return self._special[name]
 
     def close(self):
         shutil.rmtree(self.root, ignore_errors=True)
@@ -112,6 +124,40 @@ def check_cases(probe, sh, cases):
     return fails
 
 
+def cmdword_ok(name):
+    return (b"/" not in name and b"\0" not in name and b"\n" not in name and name not in (b".", b"..", b"argdump") and 0 < len(name) < 200)
+
+
+def check_cmdword(probe, sh, names):
+    """the name as the command word: `$in -- $out` with an executable of that name on PATH must start exactly that
+    executable with the arguments -- o. Names that sh itself gives a meaning to (builtins, reserved words) are skipped.
+    The script is run behind a no-op first line, so that `sh -c` does not take a leading '-' of the *script* for an option
+    (what ninja's own spawn does with such a command is judged through the real binary, level 3)."""
+    names = [n for n in names if cmdword_ok(n) and not sh.is_shell_word(n)]
+    if not names:
+        return [], 0
+    for n in names:
+        dst = os.path.join(sh.cmdbin.encode(), n)
+        if not os.path.exists(dst):
+            os.link(sh.argdump, dst)
+    r = probe.request(dict(kind="shell_escape", cases=[dict(ins=[n.hex()], outs=[b"o".hex()], cmdword=True) for n in names]))["results"]
+    cmds = [bytes.fromhex(x["command"]) for x in r]
+    want = [b"--", b"o"]
+    fails = []
+    parsed, ok_dir, p = sh.run(b":\n" + b"\n".join(cmds), len(names))
+    bad = [] if (parsed is not None and ok_dir and all(a == want for a in parsed)) else range(len(names))
+    for i in bad:
+        parsed, ok_dir, p = sh.run(b":\n" + cmds[i], 1)
+        if parsed is None or parsed[0] != want:
+            fails.append((([names[i]], [b"o"]), "as the command word: sh did not start the program named %r from command %r (got %r, stderr %r)" % (
+                names[i], cmds[i], parsed[0] if parsed else p.stdout[:100], p.stderr[:200])))
+        elif not ok_dir:
+            fails.append((([names[i]], [b"o"]), "as the command word: running %r created or removed files" % cmds[i]))
+    for n in names:
+        os.unlink(os.path.join(sh.cmdbin.encode(), n))
+    return fails, len(names)
+
+
 def positions(name):
     """the name alone, and first/middle/last in lists of neighbours, as input and as output"""
     x, y = b"n1", b"n 2"
@@ -147,7 +193,25 @@ def enum_worker(part, nparts, tier):
                 for ins, outs in batch:
                     res.evaluations += 1
                 del batch[:]
+            cw = []
+            def flush_cw():
+                if not cw:
+                    return
+                try:
+                    fails, n_ = check_cmdword(probe, sh, cw)
+                except ProbeDied as d:
+                    fails, n_ = [(([cw[0]], [b"o"]), "ninja crashed while evaluating a command: " + d.describe())], 0
+                res.evaluations += n_
+                res.extra["command_word_names"] += n_
+                for case, why in fails:
+                    if len(res.failures) < 3:
+                        res.failures.append(dict(case=dict(ins=[i.hex() for i in case[0]], outs=[o.hex() for o in case[1]], cmdword=True), why=why))
+                del cw[:]
             for n in mine:
+                if len(n) <= 3:
+                    cw.append(n)
+                    if len(cw) >= 300:
+                        flush_cw()
                 full = len(n) == 1 or (len(n) == 2 and (n[0:1] in SPECIAL or n[1:2] in SPECIAL))
                 for k, case in enumerate(positions(n)):
                     if k >= 1 and not full and len(n) != 3:
@@ -161,6 +225,7 @@ def enum_worker(part, nparts, tier):
                 if res.failures:
                     break
             flush()
+            flush_cw()
             if mine:
                 res.samples.append(dict(name=repr(mine[len(mine) // 2])))
     except Exception:
@@ -251,6 +316,63 @@ def level2_case(root, ninja, argdump, ins, outs, tag, fail):
     return None
 
 
+def cmdword_real_case(root, ninja, argdump, name):
+    """level 3: `command = $in $out > dump.bin` through the real binary; the input is an executable in the build
+    directory, which is on PATH"""
+    d = os.path.join(root, "l3")
+    shutil.rmtree(d, ignore_errors=True)
+    os.makedirs(d)
+    shutil.copy(argdump, os.path.join(d.encode(), name))
+    open(os.path.join(d, "build.ninja"), "wb").write(b"n = " + let_escape(name) + b"\nrule run\n  command = $in $out > dump.bin\nbuild o: run $n\n")
+    home = os.path.join(root, "home3")
+    os.makedirs(home, exist_ok=True)
+    p = subprocess.run([ninja], cwd=d, env=dict(os.environ, HOME=home, TERM="dumb", a="EXPANDED", PATH=d + ":/usr/bin:/bin"), capture_output=True, timeout=60)
+    detail = dict(name=name.hex(), output=(p.stdout + p.stderr)[-300:].decode("latin-1"))
+    try:
+        dump = open(os.path.join(d, "dump.bin"), "rb").read()
+    except FileNotFoundError:
+        dump = b""
+    parsed = parse_argdump(dump, 1)
+    if parsed is None or parsed[0] != [b"o"] or p.returncode != 0:
+        return dict(kind="as the command word of a real build the name %r did not start the program of that name with the argument 'o': exit %d, got %r"
+                    % (name, p.returncode, parsed[0] if parsed else dump[:100]), detail=detail)
+    extra = sorted(set(os.listdir(d.encode())) - {name, b"build.ninja", b"dump.bin", b".ninja_log", b".ninja_deps", b".ninja_lock"})
+    if extra or os.listdir(home):
+        return dict(kind="running the command word %r created files %r" % (name, extra), detail=detail)
+    return None
+
+
+def level3_worker(widx, nworkers, n_random):
+    res = common.Result()
+    root = common.scratch_root()
+    ninja = build.ninja_binary("rel")
+    argdump = build.c_tool("argdump")
+    sh = Shell()
+    try:
+        names = [bytes([c]) for c in range(1, 256) if c not in (10, 13)]      # CR cannot be written in a manifest
+        names += [a + b for a in (b"-", b"+", b"~", b"=", b"#", b"!", b"{", b"a") for b in (b"x", b"-", b"=", b"n", b"e", b"1", b" ", b"$")]
+        names += [b"a=b", b"PATH=x", b"-n", b"-e", b"--", b"-c", b"+x", b"a:b", b"a,b", b"a@b", b"x=1.y", b"_=_"]
+        import random
+        rnd = random.Random(common.sub_seed(PROP, 'l3', widx))     # a fixed function of VERIF_SEED
+        alpha = [s_ for s_ in SPECIAL if s_ != b"/"] + [bytes([c]) for c in range(33, 127) if c != 47]
+        for _ in range(n_random):
+            names.append(b"".join(rnd.choice(alpha) for _ in range(rnd.randint(1, 8))))
+        for n in names[widx::nworkers]:
+            if not cmdword_ok(n) or n in (b"dump.bin", b"build.ninja", b"o") or sh.is_shell_word(n):
+                continue
+            f = cmdword_real_case(root, ninja, argdump, n)
+            res.case(dict(level3=True, name=n.hex()), any(c not in SAFE for c in n), ['l3:command_word'], sample=dict(name=repr(n)))
+            if f:
+                res.failures.append(dict(case=dict(level3=True, name=n.hex()), why="[real binary] %s %s" % (f['kind'], json.dumps(f['detail'])[:500])))
+                break
+    except Exception:
+        res.failures.append(dict(why="harness exception", harness_error=True, trace=traceback.format_exc()))
+    finally:
+        sh.close()
+        shutil.rmtree(root, ignore_errors=True)
+    return res
+
+
 def level2_worker(widx, n_examples):
     res = common.Result()
     state = {}
@@ -293,6 +415,18 @@ def run(tier):
                       "quoting; enumerated names are distinct by construction.",
                       ["/bin/sh is dash on this image; decoy files and variables are planted so that globbing/expansion would be visible",
                        "level 2: names and the rspfile content reach the manifest through variables (every byte except NUL, LF, CR and, for names, /), the real binary runs the command, argv is dumped and the rspfile life-cycle (content at start, removed after success, kept after failure) is checked"])
+    import glob
+    for path in sorted(glob.glob(os.path.join(common.VERIF, 'regress', '*_C16_*.json'))):
+        c = json.load(open(path))['case']
+        if c.get('level3'):
+            root = common.scratch_root()
+            try:
+                f = cmdword_real_case(root, build.ninja_binary("rel"), build.c_tool("argdump"), bytes.fromhex(c['name']))
+            finally:
+                shutil.rmtree(root, ignore_errors=True)
+            ck.extra_cov['regression_cases_replayed'] = ck.extra_cov.get('regression_cases_replayed', 0) + 1
+            if f:
+                ck.violation(c, "regression file %s: [real binary] %s" % (os.path.basename(path), f['kind']))
     res = common.run_workers(enum_worker, [(w, common.NCPU, tier) for w in range(common.NCPU)])
     ck.merge(res)
     nquote = res.extra.get("names_needing_quotes", 0)
@@ -301,7 +435,14 @@ def run(tier):
     r3 = common.run_workers(level2_worker, [(w, (1500 if tier == "thorough" else 40)) for w in range(common.NCPU)])
     ck.merge(r3)
     ck.extra_cov['level2_cases'] = r3.evaluations
-    for f in res.failures + r2.failures + r3.failures:
+    r4 = common.run_workers(level3_worker, [(w, common.NCPU, (300 if tier == "thorough" else 20)) for w in range(common.NCPU)])
+    ck.merge(r4)
+    ck.extra_cov['level3_command_word_cases'] = r4.evaluations
+    ck.extra_cov['level1_command_word_names'] = res.extra.get("command_word_names", 0)
+    ck.rule += (" Command-word position: `$in -- $out` with an executable of that name on PATH must start exactly that program - every 1-3 byte name "
+                "of the enumeration without '/' that sh does not itself give a meaning to (builtins, reserved words), through the probe and sh; "
+                "and `command = $in $out` through the real binary for every 1-byte name, names starting with - + ~ = # ! {, and random names.")
+    for f in res.failures + r2.failures + r3.failures + r4.failures:
         if not f.get("harness_error"):
             ck.violation(f["case"], f["why"])
     ck.extra_cov.update(exhaustive=not res.failures, distinct_nontrivial=nquote + len(r2.nontrivial), enumerated_names=res.extra.get("names", 0))
@@ -311,6 +452,31 @@ def run(tier):
 def replay(path):
     j = json.load(open(path))
     c = j.get("case", j)
+    if c.get("level3"):
+        root = common.scratch_root()
+        try:
+            f = cmdword_real_case(root, build.ninja_binary("rel"), build.c_tool("argdump"), bytes.fromhex(c["name"]))
+        finally:
+            shutil.rmtree(root, ignore_errors=True)
+        if f:
+            print("finding:", f["kind"])
+            print("VIOLATION property=%s replay=%s" % (PROP, path))
+            return 1
+        print("replay: no violation")
+        return 0
+    if c.get("cmdword"):
+        sh = Shell()
+        try:
+            with Probe("san") as probe:
+                fails, _ = check_cmdword(probe, sh, [bytes.fromhex(i) for i in c["ins"]])
+        finally:
+            sh.close()
+        if fails:
+            print("finding:", fails[0][1][:1500])
+            print("VIOLATION property=%s replay=%s" % (PROP, path))
+            return 1
+        print("replay: no violation")
+        return 0
     if c.get("level2"):
         root = common.scratch_root()
         try:
